@@ -54,7 +54,7 @@ CHECKS = {
          "All sequences to depth 5 (thorough 6) of create(timeout unit) / begin-session / session-results / keep-alive / metrics / full-metrics / save-state / requests with a wrong token (token server) / advance(eps, T/2, T-eps, T, T+eps) for pairs of instances covering every timeout unit, with and without a file adapter, from the empty server and again from the state in which both instances exist: available while younger than the timeout, gone (not counted, destroy() exactly once, id refused or restored from the adapter) after the next sweep trigger, timer restarted by every access.",
          "Time reaches the server only through datetime.datetime.now() of its modules (shimmed); an expired instance accessed itself before any sweep is not judged; thorough adds a short real-time cross-check.", "§4 C17"),
  "C14": ("model_checking", "explicit-state BFS over operation histories on the real Model from the empty model and from an aged root (300 agents created, 298 deleted; ids passed by value), dict reference compared on every transition; canonical keys include a generic fingerprint of the model's containers",
-         "All create/create_n/delete/delete_n/delete of the list agent_ids() returns/configure/reset/set_state/register-a-third-type histories up to depth 6 (quick) / 8 (thorough) over two agent types, up to depth 4 / 6 from the aged root and on a model without data collector (reset() fails half way, the reference adopts what is left); every registry query compared with a dict id->(type,state) after every transition.",
+         "All create/create_n/delete/delete_n/delete of the list agent_ids() returns/configure/reset/set_state/register-a-third-type histories up to depth 6 (quick) / 7 (thorough) over two (then three) agent types, up to depth 4 / 5 from the aged root and on a model without data collector (reset() fails half way, the reference adopts what is left); every registry query compared with a dict id->(type,state) after every transition.",
          "Agents created through factories whose name equals agent_type; ids offered to delete range over all ids ever issued (live and dead).", "§4 C14"),
  "C18": ("model_checking", "stateless preemption-bounded exploration (iterative context bounding) of concurrent stepping requests under a controlled scheduler: sys.settrace line points, per-thread baton, scheduler-owned mutex",
          "Every schedule with <= 1 (thorough 2) preemptions of two concurrent stepping requests - all 6 unordered pairs of run-step / run-steps / stream-steps, the two smallest pairs at <= 2 in both tiers, 4 (9) pairs with a request that has no JSON body at <= 1 - (one triple in quick, thorough: all triples, <= 1 preemption) at the source lines of the handlers, the streamer, lock/unlock/is_locked/try_lock and the session-touching lines of bptk.run_step: consecutive steps per response, no time twice, clock = steps returned, results log = returned times, lock released; plus 8 sequential release cases (completion, error, client gone, close after the next request took the lock) and 23 hold cases (a stream in progress x 12 bystander requests x with/without adapter: the lock is kept); thorough: run-step + run-step with <= 3 preemptions.",
